@@ -272,7 +272,7 @@ def forms_task(arg):
 
 
 def run(tier):
-    L = 3 if tier == 'quick' else 4
+    L = 3 if tier == 'quick' else 6
     c = common.Check('C19', tier, 'bounded symbolic execution of the real PDFFiller._create_fdf on a symbolic printable-ASCII value + symbolic reference decoder of the PDF literal-string syntax (z3: decoded == value on every path); the real PDFFiller.fill with stubbed pdftk on SMT-chosen sets of solution sections',
                      ['habutax.pdf_filler.PDFFiller._create_fdf', 'habutax.pdf_filler.PDFFiller.fill/_add_form/_fill_form', 'Form.needs_filing'])
     c.bounds = {'value_length': '<= %d printable ASCII characters' % L, 'forms_per_solution': '<= 3 sections, every combination', 'years': [2021, 2022, 2023]}
